@@ -166,10 +166,10 @@ def run(ctx):
                 ("sigmai", [s + 6, 12000]), ("fuzzi", [s + 7, 5000]), ("genmuti", [s + 8, 5000]), ("rp", [s + 9, 1500])]
     else:
         jobs = [("sigma", [s, 5, 1, i, 8]) for i in range(8)]
-        jobs += [("sigmas", [s + 10 + i, 100000]) for i in range(4)]
-        jobs += [("fuzz", [s + 20 + i, 70000]) for i in range(4)]
-        jobs += [("genmut", [s + 30 + i, 30000]) for i in range(4)]
-        jobs += [("lists", [s + 40 + i, 15000, 0]) for i in range(4)]
+        jobs += [("sigmas", [s + 10 + i, 60000]) for i in range(4)]
+        jobs += [("fuzz", [s + 20 + i, 50000]) for i in range(4)]
+        jobs += [("genmut", [s + 30 + i, 20000]) for i in range(4)]
+        jobs += [("lists", [s + 40 + i, 10000, 0]) for i in range(4)]
         jobs += [("lists", [s + 50 + i, 2000, 1]) for i in range(4)]
         jobs += [("big", [s + 55 + i, 30]) for i in range(4)]
         jobs += [("sigmai", [s + 60 + i, 60000]) for i in range(2)]
